@@ -593,6 +593,8 @@ def run(chk, b, tier):
     chk.cov["cap_repositories_with_a_saturated_quantity"] = nsat
     chk.cov["cpu_seconds_per_cap_repository"] = cpus
     chk.cov["distinct_nontrivial"] = nsat + chk.cov.get("boundary_cases_saturating", 0)
+    from ._camp import generic_fault_sweep
+    generic_fault_sweep(chk, b, "C05", [['--json', '--no-progress'], ['-v', '--no-progress']])
     chk.cov["rule"] = ("(1) arithmetic: real counts.Count32/Count64 operations on the boundary set x boundary set (python big-int "
                        "oracle), seeded random pairs and 1-50 step compositions incl. 32->64 bit flows (Go integer reference via "
                        "math/bits), and ALL operand pairs of a go/ast width-narrowed copy of counts.go (8/16 bit); (2) rendering: "
